@@ -80,6 +80,7 @@ MUTANTS = {
         ("patch:own-c18-neutral-value-parameter",),
         ("patch:own-c18-options-ignored-with-user-structure",),
         ("patch:own-c18-reserved-names-not-ignored",),
+        ("patch:own-c18-options-ignored-with-vcf-input",),
         ("values-kept-as-strings", "aldy/profile.py", "                            self.__dict__[n] = typ(v)", "                            self.__dict__[n] = v"),
         ("precedence-reversed", "aldy/profile.py", '            **dict(prof.get("options", {}), **params),', '            **dict(params, **prof.get("options", {})),'),
         ("options-dropped-on-write", "aldy/profile.py", '                d["options"][k] = v', "                pass"),
